@@ -58,3 +58,48 @@ def build(reg):
             "modified in place through an alias (x = factors[i]; x *= c is outside the model)",
         ],
     )
+
+
+# negative controls (thorough tier): (name, file, old text, new text)
+CONTROLS = [
+    ('truncation sweep leaves the isometry on the wrong side',
+     'emu_mps/utils.py', 'orth_center_right=False,', 'orth_center_right=True,'),
+    ('truncation sweep allows one bond more than the cap',
+     'emu_mps/utils.py', 'max_rank=max_bond_dim,', 'max_rank=max_bond_dim + 1,'),
+    ('truncation sweep stops one bond early',
+     'emu_mps/utils.py', 'for i in range(len(factors) - 1, 0, -1):', 'for i in range(len(factors) - 1, 1, -1):'),
+    ('cutoff index off by one',
+     'emu_mps/utils.py', '        if acc > squared_max_error:\n            return i',
+     '        if acc >= squared_max_error:\n            return i + 1'),
+    ('split_matrix keeps the smallest instead of the largest directions',
+     'emu_mps/utils.py', 'right = q[:, max_bond:].T.conj_physical()',
+     'right = q[:, : q.shape[1] - max_bond].T.conj_physical()'),
+    ('truncate declares the centre on the last site',
+     'emu_mps/mps.py', 'self.orthogonality_center = 0', 'self.orthogonality_center = self.num_sites - 1'),
+    ('truncate normalises before the sweep and restores the norm afterwards (relative budget; seeded change C10-a)',
+     'emu_mps/mps.py',
+     '        self.orthogonalize(self.num_sites - 1)\n        truncate_impl(\n'
+     '            self.factors, precision=self.precision, max_bond_dim=self.max_bond_dim\n        )\n',
+     '        self.orthogonalize(self.num_sites - 1)\n        norm = self.factors[-1].norm()\n'
+     '        self.factors[-1] = self.factors[-1] / norm\n        truncate_impl(\n'
+     '            self.factors, precision=self.precision, max_bond_dim=self.max_bond_dim\n        )\n'
+     '        self.factors[0] = self.factors[0] * norm\n'),
+    ('right-to-left orthogonalisation sweep stops one site early',
+     'emu_mps/mps.py', 'for i in range(rl_swipe_start, desired_orthogonality_center, -1):',
+     'for i in range(rl_swipe_start, desired_orthogonality_center + 1, -1):'),
+    ('right-to-left sweep absorbs R through the wrong leg',
+     'emu_mps/mps.py', 'self.factors[i - 1], r.to(self.factors[i - 1].device), ([2], [1])',
+     'self.factors[i - 1], r.to(self.factors[i - 1].device), ([2], [0])'),
+    ('norm() reads the first tensor instead of the centre',
+     'emu_mps/mps.py', 'return self.factors[orthogonality_center].norm().cpu()', 'return self.factors[0].norm().cpu()'),
+    ('scalar multiplication scales site 0 instead of the centre',
+     'emu_mps/mps.py', 'factors = scale_factors(self.factors, scalar, which=which)',
+     'factors = scale_factors(self.factors, scalar, which=0)'),
+    ('_evolve declares the centre on the wrong side',
+     'emu_mps/mps_backend_impl.py', 'self.state.orthogonality_center = r if orth_center_right else l',
+     'self.state.orthogonality_center = l if orth_center_right else r'),
+    ('evolve_pair doubles the bond cap',
+     'emu_mps/solver_utils.py',
+     '        max_rank=config.max_bond_dim,\n        orth_center_right=orth_center_right,\n        preserve_norm',
+     '        max_rank=2 * config.max_bond_dim,\n        orth_center_right=orth_center_right,\n        preserve_norm'),
+]
